@@ -220,6 +220,9 @@ def run_shard(spec, ctx):
                 if s["version"] in (0, 0x80, 0xFF):
                     ctx.bin("version_%02x" % s["version"])
         case = G.gen_case(rng, ncomp=rng.choice((0, 1, 2)))
+        # a plain component must not claim to be THE configuration (TYPE=03): set_config would - correctly - replace it
+        for c in case.comps:
+            c.desc = [(t, (b"\x02" if (t == 0xC3 and v == b"\x03") else v)) for t, v in c.desc]
         conf = None
         if rng.random() < 0.6:
             conf = dict(CONF)
